@@ -85,19 +85,26 @@ def _fresh(f):
 
 
 def _stale(p):
-    fr = _fresh(p)
-    for name, fn in (("s", lambda f: f.s), ("len", len), ("str", str), ("repr", repr)):
-        if fn(p) != fn(fr):
-            return f"memoised {name}={fn(p)!r} but fresh {fn(fr)!r}"
+    """every memoised view of p against the same view of a BRAND-NEW structurally equal value on which nothing else was observed
+    before (an answer must not depend on which other views were computed earlier - on either side)"""
     def w(x):
         try:
             return ("value", x.width)
         except ValueError:
             return ("raises ValueError",)
     # (an unmeasurable value - a control character in some run - must keep raising: a failed observation leaves nothing behind)
-    fw, pw = w(fr), w(p)
-    if pw != fw:
-        return f"memoised width {pw} but fresh {fw}"
+    views = (("s", lambda f: f.s), ("len", len), ("str", str), ("repr", repr), ("width", w))
+    for name, fn in views:
+        a, b = fn(p), fn(_fresh(p))
+        if a != b:
+            return f"memoised {name}={a!r} but a fresh equal value gives {b!r}"
+    for first, second in (("s", "width"), ("width", "s"), ("str", "len"), ("len", "width")):
+        fr = _fresh(p)
+        d = dict(views)
+        d[first](fr)
+        a, b = d[second](fr), d[second](_fresh(p))
+        if a != b:
+            return f"{second} computed after {first} is {a!r}, computed first it is {b!r}"
     return ""
 
 
